@@ -363,6 +363,23 @@ theorem fillPairs_not_mem (s c : List UInt8) (t : PTabs) (x : UInt8) (hx : x ∉
       have := ih c { pair := set t.pair v w, ok := set t.ok v true } (fun h => hx (List.mem_cons_of_mem _ h))
       simpa [set, hv] using this
 
+/-- a letter whose `ok` flag is still false after the fill loop was never written -/
+theorem fillPairs_ok_false (s c : List UInt8) (t : PTabs) (x : UInt8)
+    (h : (fillPairs s c t).ok x = false) : (fillPairs s c t).pair x = t.pair x ∧ t.ok x = false := by
+  induction s generalizing c t with
+  | nil => simpa [fillPairs] using h
+  | cons v s ih =>
+    cases c with
+    | nil => simpa [fillPairs] using h
+    | cons w c =>
+      simp only [fillPairs] at h ⊢
+      obtain ⟨h1, h2⟩ := ih c { pair := set t.pair v w, ok := set t.ok v true } h
+      simp only [set] at h1 h2
+      by_cases hv : x = v
+      · simp [hv] at h2
+      · simp only [hv, if_false] at h1 h2
+        exact ⟨h1, h2⟩
+
 /-- the check loop visits every letter of `s` (the lists have equal length) -/
 theorem checkBijection_mem (pair : UInt8 → UInt8) (s c : List UInt8) (hlen : s.length = c.length)
     (h : checkBijection pair s c = true) : ∀ l ∈ s, pair (pair l) = l := by
